@@ -163,6 +163,17 @@ Definition set_excess (t : trec) : trec :=
   mkT (t_parent t) (t_id t) (t_slate t) (t_type t) (t_conf t) (t_cred t) (t_deb t) (t_fee t) (t_ttl t)
       (t_nin t) (t_nout t) true (t_stored t).
 
+(** the entry takes the cutoff the counterparty attached when it has none of its own (the
+    issuer of an invoice, at finalize: the [fix:] for C17-invoice-issuer-never-expires) *)
+Definition adopt_ttl (t : trec) (ttl : N) : trec :=
+  match t_ttl t with
+  | Some _ => t
+  | None =>
+    if ttl =? 0 then t
+    else mkT (t_parent t) (t_id t) (t_slate t) (t_type t) (t_conf t) (t_cred t) (t_deb t) (t_fee t)
+             (Some ttl) (t_nin t) (t_nout t) (t_excess t) (t_stored t)
+  end.
+
 Definition with_outs (w : wallet) (o : list orec) : wallet :=
   mkW o (w_log w) (w_ctxs w) (w_child w) (w_logid w) (w_confh w) (w_active w) (w_files w).
 Definition with_log (w : wallet) (l : list trec) : wallet :=
@@ -583,14 +594,15 @@ Definition process_invoice (w0 : wallet) (slate ttl : N) (src : option N) (p0 : 
 (* ------------------------------------------------------------------ finalize *)
 (** owner/foreign finalize_tx for a Standard2 reply, as bookkeeping. [crypto_ok]: whether
     the signature/fee/validation checks of complete_tx and the payment-proof check pass. *)
-Definition finalize_invoice (w : wallet) (slate : N) (crypto_ok : bool) : wallet * result unit :=
+Definition finalize_invoice (w : wallet) (slate ttl : N) (crypto_ok : bool) : wallet * result unit :=
   if negb crypto_ok then (w, Err ECrypto)
   else
     match find (fun t => optN_eqb (t_slate t) (Some slate) && ttype_eqb (t_type t) TReceived)
                (w_log w) with
     | None => (w, Err ENotFound)
     | Some t =>
-      (del_ctx (with_files (with_log w (save_tx (w_log w) (set_excess t))) (slate :: w_files w)) slate,
+      (del_ctx (with_files (with_log w (save_tx (w_log w) (set_excess (adopt_ttl t ttl))))
+                           (slate :: w_files w)) slate,
        Ok tt)
     end.
 
@@ -748,7 +760,7 @@ Definition step (w : wallet) (o : op) : wallet * list Z :=
       match check_ttl w t with
       | Err e => (w, rcode (@Err unit e))
       | Panic q => (w, rcode (@Panic unit q))
-      | Ok _ => let '(w', r) := finalize_invoice w s c in (w', rcode r)
+      | Ok _ => let '(w', r) := finalize_invoice w s t c in (w', rcode r)
       end
     end
   end.
